@@ -208,6 +208,32 @@ example : responsesOk (some [("a", "defer"), ("b", "closed"),
     ("commands.(Command).ExecuteIQ", "violation:a return leaves the response open (line 72)")]) = false := by
   decide
 
+/-! ## Round F: a channel is closed at most once
+
+`close` of a closed channel panics (four genuine panics of this check's history, the seeded
+C09-8) and is not an operation of the skeleton IR.  Every `close(ch)` in scope is regenerated
+with what makes it happen at most once (`harness/c09/closefacts.go`): inside a `sync.Once`, the
+only close of a local channel, or the close of an entry that the same block removes from its
+table.  Outside the root package no other close is accepted; the root package has one: the
+response slot (`iqResponder.Close`), which is only handed out behind the idempotent `errCloser`
+(sendResp) - reviewed, and exercised by the "answered twice" / "closed twice" scenarios.  Send
+on a closed channel is not covered (fuzzing only). -/
+
+def closeFactsOk : Option (List (String × String)) → Bool
+  | some l => l.all (fun f => f.2 == "once" || f.2 == "local" || f.2 == "removed-entry" ||
+        (f.1 == "xmpp" && f.2 == "bare")) &&
+      (l.filter fun f => f.2 == "bare").length ≤ 1 && l.any (fun f => f.2 == "once") &&
+      l.any (fun f => f.2 == "removed-entry")
+  | none => false
+
+theorem C09_channels_closed_at_most_once :
+    closeFactsOk XmppModel.Generated.C09.closeFacts = true := by
+  decide +kernel
+
+-- history's table entry closed without being removed (seeded C09-8), a second bare close in the root
+example : closeFactsOk (some [("xmpp", "bare"), ("history", "bare"), ("ibb", "once"), ("h", "removed-entry")]) = false := by decide
+example : closeFactsOk (some [("xmpp", "bare"), ("xmpp", "bare"), ("ibb", "once"), ("h", "removed-entry")]) = false := by decide
+
 /-! ## Round E: every mutex of the handler packages is released on every path
 
 The same classification as above, run over every package that has wait-for sets (history, ibb,
